@@ -29,4 +29,8 @@ props_alg.SPECS['C04']['extra'] = list(props_alg.SPECS['C04'].get('extra', [])) 
 def _jones_alias_rows(g, tier):
     return [c for c in props_alias.gen_C16(g, tier) if c.line.startswith(('al.jonesr', 'al.jonesc', 'al.jones '))]
 props_alg.SPECS['C04']['extra'].append((dict(props_alias.GROUP, replay_prefix='al.'), _jones_alias_rows))
+# double-only oracles live in their own harness (group dbl), so that they survive a change that breaks the exact-rational instantiation
+props_lin.SPECS['C13']['extra'] = list(props_lin.SPECS['C13'].get('extra', [])) + [(props_lin.GROUP_DBL, props_lin.gen_dbl_c13)]
+props_lin.SPECS['C14']['extra'] = list(props_lin.SPECS['C14'].get('extra', [])) + [(props_lin.GROUP_DBL, props_lin.gen_dbl_c14)]
+props_alg.SPECS['C15']['extra'] = list(props_alg.SPECS['C15'].get('extra', [])) + [(props_lin.GROUP_DBL, props_alg.gen_dbl_c15)]
 NOT_CLAIMED = {}
